@@ -5,7 +5,7 @@
     development therefore proves (1) the refutation, with a concrete witness that is also a
     corpus script failing on the real code; (2) that everything outside the known class is
     impossible; (3) a bound on what the known class can do. *)
-From FM Require Import Hostile.
+From FM Require Import Hostile CallSeqHostile.
 
 Definition winit : world :=
   mkW (fun a d => if (a =? 1) || (a =? 2) then 1000 else 0) (fun _ _ => 0) (fun _ _ => None)
@@ -76,3 +76,15 @@ Theorem C18_no_wallet_touched : forall w o a,
   op_initiator o <> Some a -> a <> self_addr w -> nondecr w (fst (step w o)) a.
 Proof. exact step_others_nondecreasing. Qed.
 Print Assumptions C18_no_wallet_touched.
+
+(** Under every interleaving (proofs/CallSeqHostile.v): along any sequence of successful calls
+    sent by contracts of a set [P] (none of them the victim) — forged hook calls naming the victim
+    included, in any order or nesting — the victim's bucket is still stored under the same key
+    with the same owner and pending fee; its coins, every token that is not one of the attackers'
+    own and every NFT it held are exactly as before; and whatever was added is an attacker's own
+    "token" (known finding F1, bounded). *)
+Theorem C18_hostile_contracts_only_add_junk : forall P a id b s s',
+  Inv s -> hostile_seq P a s s' -> find_key (a, id) (buckets s) = Some b ->
+  exists g, find_key (a, id) (buckets s') = Some (mkB (owner b) g (bfee b)) /\ only_junk_added P (funds b) g.
+Proof. exact hostile_contracts_only_add_junk. Qed.
+Print Assumptions C18_hostile_contracts_only_add_junk.
